@@ -137,12 +137,53 @@ Fixpoint all2 {A B} (f : A -> B -> bool) (a : list A) (b : list B) : bool :=
   | x :: a', y :: b' => f x y && all2 f a' b'
   | _, _ => false
   end.
+(* One step of the model is run from the table the implementation actually holds (equal to the model's own table
+   whenever the previous step agreed).  sort_by: NumPy's default argsort is not stable (vectorised quicksort), so
+   among equal keys the implementation may order rows differently from the model's stable sort; such a result is
+   accepted when it has the same column types/widths, the same multiset of rows, and its key column is sorted. *)
+Definition obs_tab (o : obs) : option ctable := match o with OTab c _ _ => Some c | _ => None end.
+Definition bcol_meta_eqb (a b : bcol) : bool :=
+  match a, b with
+  | ColNum d _, ColNum d' _ => dt_eqb d d'
+  | ColRag t _ _, ColRag t' x l => rtag_eqb t t' && (sumZ l =? len x) && forallb (fun n => 0 <=? n) l
+  | ColPad w _, ColPad w' m => (w =? w') && forallb (fun r => len r =? w') m
+  | ColFlat _, ColFlat _ => true
+  | _, _ => false
+  end.
+Definition col_meta_eqb (a b : col) : bool :=
+  match a, b with
+  | CBase x, CBase y => bcol_meta_eqb x y
+  | CNest x, CNest y => all2 bcol_meta_eqb x y
+  | _, _ => false
+  end.
+Definition sort_equiv (f : nat) (t o : ctable) (rows : list (list mcell)) : bool :=
+  all2 col_meta_eqb t o && aligned o
+  && perm_b (list_eqb mcell_eqb) (m_to_rows t) (m_to_rows o) && mrows_eqb (m_to_rows o) rows
+  && match nth_error o f with
+     | Some c => match sort_key_pinned c with Some v => sorted_b Z.leb v | None => false end
+     | None => false
+     end.
+Definition mstep_ok (sch : schema) (cur t1 : ctable) (o : op) (ob : obs) : bool :=
+  let m := m_step sch cur t1 o in
+  mres_eqb sch m ob
+  || match o, m, ob with
+     | OSort f, MTab sch' t, OTab c rows keys => sort_equiv f t c rows && zll_eqb (map fst (m_todict sch' t)) keys
+     | _, _, _ => false
+     end.
+Fixpoint msteps_ok (sch : schema) (cur t1 : ctable) (p : list op) (os : list obs) : bool :=
+  match p, os with
+  | [], [] => true
+  | o :: p', ob :: os' =>
+      mstep_ok sch cur t1 o ob
+      && msteps_ok (sch_after sch o ob) (match obs_tab ob with Some c => c | None => cur end) t1 p' os'
+  | _, _ => false
+  end.
 Definition model_ok (c : case) : bool :=
   let m0 := m_construct (k_sch c) (k_a0 c) in
   let m1 := m_construct (k_sch c) (k_a1 c) in
   mopt_eqb (k_sch c) m0 (k_t0 c) && mopt_eqb (k_sch c) m1 (k_t1 c)
   && match m0, m1 with
-     | Some t0, Some t1 => all2 (mres_eqb (k_sch c)) (m_run (k_sch c) t0 t1 (k_prog c)) (k_steps c)
+     | Some t0, Some t1 => msteps_ok (k_sch c) t0 t1 (k_prog c) (k_steps c)
      | _, _ => is_nil (k_prog c)
      end
   && obs_eqb (k_t0 c) (k_t0_after c) && obs_eqb (k_t1 c) (k_t1_after c) && k_unchanged c.
